@@ -32,12 +32,13 @@ from vlib.common import Ctx, Result
 TOL = 1e-11
 # E-field ladder, calibrated on the repaired tree (quick seeds 0..5, gaps 0.4..1.2 between the bounding spheres, 4..12
 # element grids; see stats `efield_*`): the relative difference between the boundary matrix and the tested potential at
-# orders 2,..,6 was e.g. 1.5e-2, 1.9e-2, 1.2e-3, 4.5e-4, 3.1e-5 -- odd orders can be slightly worse than the preceding
-# even one, the overall decay from order 2 to 6 was 2.0e-3..2.3e-3 and the last rung <= 1.4e-4.  Required: last <=
+# orders 2,..,6 was e.g. 1.5e-2, 1.9e-2, 1.2e-3, 4.5e-4, 3.1e-5 -- order 3 can be worse than order 2 (up to 1.9x in
+# the thorough tier), the overall decay from order 2 to 6 was 2.0e-3..2.3e-3 and the last rung <= 1.4e-4 (thorough,
+# order 8: decay <= 3e-4, last <= 1.3e-5).  Required: last <=
 # E_SHRINK * first, last <= E_LAST_ABS, no rung above E_BUMP * first.  (A wrong sign / factor gives a flat ladder ~1.)
 E_SHRINK = 0.05
 E_LAST_ABS = 2e-3
-E_BUMP = 2.0
+E_BUMP = 4.0
 
 
 # ----------------------------------------------------------------------------------------------------------------
